@@ -265,6 +265,8 @@ ser('unknown_field_nested', ['VF_UNKNOWN=1', 'VF_SHAPE=2'])
 ser('hostile_len4_u64', ['VF_INLEN=4', 'VF_SHAPE=0'], opts={'oob': '1'})
 ser('hostile_len4_nested', ['VF_INLEN=4', 'VF_SHAPE=2'], opts={'oob': '1'})
 ser('hostile_len3_all', ['VF_INLEN=3', 'VF_SHAPE=3'], opts={'oob': '1'})
+S('ser_nested_len_boundary_field1', 'serial/ser_big.cpp', {'assert': 'C11'}, defs=['VF_INNER_FIELD=1'], extra=SRX, models=['sc'], bound=12, xsrc=['serial/pbmodel.cpp'])
+S('ser_nested_len_boundary_field20', 'serial/ser_big.cpp', {'assert': 'C11'}, defs=['VF_INNER_FIELD=20'], extra=SRX, models=['sc'], bound=12, xsrc=['serial/pbmodel.cpp'], tiers=TH)
 ser('roundtrip_all', ['VF_ROUNDTRIP=1', 'VF_SHAPE=3'], tiers=TH, timeout=9000, qcap=3000)
 ser('hostile_len6_all', ['VF_INLEN=6', 'VF_SHAPE=3'], opts={'oob': '1'}, tiers=TH, timeout=9000, qcap=3000)
 
@@ -306,7 +308,7 @@ LEVEL_TEXT = {
  'C17': 'Real CachedPageAllocator over a recording upstream: ownership detector (a page is never held twice / returned upstream twice / returned while held) and conservation upstream_out - upstream_in == held + cached. Object pool, batch/counting allocators outside.',
  'C18': 'Sequential mode on the real ConcurrentTransientHashSet: default / sized(4,16) construction, N inserts with duplicates (N symbolic <= 6, and exactly 34 to cross two chained tables), then size/empty/iteration/find/contains vs a reference bitmap. clear/reserve/rehash/copy/move/swap histories outside.',
  'C07': 'Real ThreadPoolExecutor (started with 0 OS threads; a harness thread runs the real keep_execute() worker loop): submit()/execute() of 1-2 tasks, the STOP markers of stop(), join == worker returned; every accepted task ran exactly once on a thread that reports is_running_in(), before the stopper passes its join; STUCK query on the futex-based global queue. Sequential re-entrant scenarios run the real start()/stop()/keep_execute()/keep_balance() with std::thread played by the harness: a task that spawned a child into its local queue is pre-empted while another thread stops the pool and the balance thread performs its last steal pass (local capacity 0/2, balance thread on/off, symbolic spawn): nothing accepted is lost behind the STOP tokens. Work stealing between 2 workers is thorough-tier; concurrent tasks-spawning-tasks and the new-thread executor are outside.',
- 'C11': 'Sequential mode: real babylon serialization traits + BABYLON_COMPATIBLE aggregates over the real protobuf coded-stream inline code, with a model of the out-of-line libprotobuf stream functions (harness/serial/pbmodel.cpp, validated against the real library by native replay of every witness): round trip and predicted size for ALL values of uint64 / int32+bool / nested aggregate, varint wire compatibility with a reference encoder, unknown fields of every wire type skipped, arbitrary input bytes up to 4 (terminates, no read past the input, success => re-serialises and re-parses to itself). Strings, containers, smart pointers, protobuf messages, stream-backed inputs outside.',
+ 'C11': 'Sequential mode: real babylon serialization traits + BABYLON_COMPATIBLE aggregates over the real protobuf coded-stream inline code, with a model of the out-of-line libprotobuf stream functions (harness/serial/pbmodel.cpp, validated against the real library by native replay of every witness): round trip and predicted size for ALL values of uint64 / int32+bool / nested aggregate, varint wire compatibility with a reference encoder, unknown fields of every wire type skipped, arbitrary input bytes up to 4 (terminates, no read past the input, success => re-serialises and re-parses to itself); a nested aggregate with a payload of 121..132 bytes (symbolic last field) across the one/two-byte length-prefix boundary: predicted size == bytes produced, own output parses back, following field found. Strings, containers, smart pointers, protobuf messages, stream-backed inputs outside.',
  'C12': 'Sequential mode on the real ReusableVector<uint64_t> over ExclusiveMonotonicBufferResource: 2-3 symbolic operations (push_back, pop_back, insert(pos), erase(pos), resize, clear, assign with symbolic positions/counts) from an empty or 3-element vector, compared after every step with a reference array; size <= constructed_size <= capacity, clear keeps capacity. Strings, nested reusable elements, manager cadence outside.',
  'C19': 'Sequential thread generations (each generation = a new logical thread after the previous one exited and its thread_local destructors ran; natively replayed on real std::threads): adder/summer exact across thread exit and thread-id reuse, maxer/miner extreme of the period for arbitrary 64-bit inputs, local() stable, for_each vs for_each_alive, a new counter recycling a destroyed one starts from zero; a new CompactEnumerableThreadLocal instance created and used from inside the destructor wipe loop of another instance (default-constructor hook) starts from zero and keeps its contents. Concurrent counting-vs-reading outside.',
  'C20': 'Sequential mode: real LogStreamBuffer + LogEntry::append_to_iovec for every length <= 40 (page 16): scatter list == bytes written, every page once; real AsyncFileAppender write() x3 with symbolic entry lengths 0..2, stop marker, real keep_writing(): file == concatenation, pages returned. Concurrent appender scenarios thorough-tier.',
